@@ -146,7 +146,10 @@ def judge_string(asm, acc, text, indent=''):
     except ValueError:
         acc['ctr']['string_outside_model'] += 1
         return
-    o = monitors.observe(asm, line + '\n', tap=False)
+    eol = ['\n', '\r\n', '\n', ''][len(text) % 4]
+    o = monitors.observe(asm, 'bytes 1' + (eol or '\n') + line + eol, tap=False)
+    if o.ok:
+        o.out = o.out[1:]
     if '\\' in text or any(ord(ch) > 127 for ch in text):
         acc['ntkeys'].add(core.ckey(line))
     acc['ctr']['string_cases'] += 1
